@@ -6,17 +6,24 @@
   pool, the slot class the harness OBSERVED on the real table (two keys are in one class iff a
   store under one evicts the other), so re-indexing the table in the C++ code does not touch the tie.
 
-    new <n> (<d0> <d1> <class>)*n                      -> new
+  Beside the model, the driver runs the GENERATED terms (Gen.lean through the semantics of Lang.lean,
+  with the generated index function instead of the observed slot classes): when that answer differs
+  from the model's, ` | gen <answer>` is appended (Props.lean proves it cannot on the unchanged tree;
+  on a changed tree it shows whether the translation still follows the code).
+
+    new <bits> <n> (<d0> <d1> <class>)*n               -> new
     ins <i> <len> <w>*len | find <i> | clr | clrk <i>  -> ok | f <len> <w>*len | ok | ok
     reload                                             -> reload 1|0     (save, load into a fresh table)
     jump <seal>                                        -> ok             (load of a header-only stream)
-    pnew <n> (<d0> <d1> <class>)*n <m> (<keyidx> <fitclass>)*m          -> pnew
+    pnew <bits> <n> (<d0> <d1> <class>)*n <m> (<keyidx> <fitclass>)*m   -> pnew
     peval <id> | pdata <d> | pclr | preload            -> p <len> <w>*len calls=<k> | ok | ok | reload 1|0
     pevalv <id>                                        -> v <d>   (the data version the answer was computed on)
     cs <site> <arg> <gap> <k>                          -> ok      (validation-strategy step, see `Site`; k = data after it)
 -/
 import Vita.C04.Model
+import Vita.C04.GenSem
 open Vita.C04
+open Vita.C04.Lang (CState PSt)
 
 structure St where
   pool : Array Key := #[]
@@ -24,6 +31,8 @@ structure St where
   ps : PState Nat := ⟨Cache.init (fun _ => 0) [], 0, 0⟩
   sigIdx : Array Nat := #[]
   fcls : Array Nat := #[]
+  g : Option CState := none                 -- the cache through the generated terms (none: no meaning)
+  gp : Option (PSt CState Nat) := none      -- the proxy through the generated terms
 
 /-- the fitness the harness's evaluator returns for fitness class `cls` on data version `d` -/
 def fitOf (cls d : Nat) : Fit :=
@@ -55,6 +64,14 @@ def mkCache (ps : List (Key × Nat)) : Cache :=
     | none => 1000000
   Cache.init idx (ps.map (·.2)).eraseDups
 
+/-- append the generated terms' answer when it differs from the model's -/
+def withGen (model : String) (gen : Option String) : String :=
+  match gen with
+  | some g => if g == model then model else model ++ " | gen " ++ g
+  | none => model ++ " | gen no-meaning"
+
+def gInit (bits : Nat) : Option CState := (gctor bits).map (·.1)
+
 def step (st : St) (line : String) : St × String :=
   let toks := (line.trimAscii.toString.splitOn " ").filter (· ≠ "")
   match toks with
@@ -66,39 +83,43 @@ def step (st : St) (line : String) : St × String :=
       if xs.any (· ≥ 18446744073709551616) then (st, "bad-op") else
       let key? (i : Nat) : Option Key := st.pool[i]?
       match cmd, xs with
-      | "new", n :: rest =>
+      | "new", bits :: n :: rest =>
         match parsePool n rest with
-        | some (ps, []) => ({ st with pool := (ps.map (·.1)).toArray, c := mkCache ps }, "new")
+        | some (ps, []) => ({ st with pool := (ps.map (·.1)).toArray, c := mkCache ps, g := gInit bits }, "new")
         | _ => (st, "bad-op")
       | "ins", i :: len :: ws =>
         match key? i with
-        | some k => if ws.length = len then ({ st with c := st.c.insert k (ws.map UInt64.ofNat) }, "ok") else (st, "bad-op")
+        | some k =>
+          if ws.length = len then
+            ({ st with c := st.c.insert k (ws.map UInt64.ofNat), g := st.g.bind fun g => ginsert g k (ws.map UInt64.ofNat) }, "ok")
+          else (st, "bad-op")
         | none => (st, "bad-op")
       | "find", [i] =>
         match key? i with
-        | some k => (st, showFit "f" (st.c.lookup k))
+        | some k => (st, withGen (showFit "f" (st.c.lookup k)) ((st.g.bind fun g => gfind g k).map (showFit "f")))
         | none => (st, "bad-op")
-      | "clr", [] => ({ st with c := st.c.clear }, "ok")
+      | "clr", [] => ({ st with c := st.c.clear, g := st.g.bind gclear }, "ok")
       | "clrk", [i] =>
         match key? i with
-        | some k => ({ st with c := st.c.clearKey k }, "ok")
+        | some k => ({ st with c := st.c.clearKey k, g := st.g.bind fun g => gclearKey g k }, "ok")
         | none => (st, "bad-op")
       | "reload", [] =>
         let r := (Cache.init st.c.idx st.c.dom).load st.c.save
-        ({ st with c := r.2 }, if r.1 then "reload 1" else "reload 0")
+        ({ st with c := r.2, g := st.g.map greload }, if r.1 then "reload 1" else "reload 0")
       | "jump", [x] =>
         if x < 4294967296 then
           let r := st.c.load ⟨UInt32.ofNat x, 0, []⟩
-          ({ st with c := r.2 }, if r.1 then "ok" else "fail")
+          ({ st with c := r.2, g := st.g.map fun g => { g with sl := UInt32.ofNat x } }, if r.1 then "ok" else "fail")
         else (st, "bad-op")
-      | "pnew", n :: rest =>
+      | "pnew", bits :: n :: rest =>
         match parsePool n rest with
         | some (ps, m :: rest2) =>
           match parsePairs m rest2 with
           | some (inds, []) =>
             if inds.all (fun p => p.1 < ps.length) then
               ({ st with pool := (ps.map (·.1)).toArray, ps := ⟨mkCache ps, 0, 0⟩,
-                         sigIdx := (inds.map (·.1)).toArray, fcls := (inds.map (·.2)).toArray }, "pnew")
+                         sigIdx := (inds.map (·.1)).toArray, fcls := (inds.map (·.2)).toArray,
+                         gp := (gInit bits).map fun g => ⟨g, 0, 0⟩ }, "pnew")
             else (st, "bad-op")
           | _ => (st, "bad-op")
         | _ => (st, "bad-op")
@@ -107,7 +128,10 @@ def step (st : St) (line : String) : St × String :=
           let sig : Nat → Key := fun i => st.pool.getD (st.sigIdx.getD i 0) Key.zero
           let ev : Nat → Nat → Fit := fun d i => fitOf (st.fcls.getD i 0) d
           let r := proxyEval sig ev st.ps id
-          ({ st with ps := r.2 }, showFit "p" r.1 ++ " calls=" ++ toString r.2.calls)
+          let gr := st.gp.bind fun gp => gproxyEval sig ev gp id
+          ({ st with ps := r.2, gp := gr.map (·.2) },
+           withGen (showFit "p" r.1 ++ " calls=" ++ toString r.2.calls)
+             (gr.map fun x => showFit "p" x.1 ++ " calls=" ++ toString x.2.calls))
         else (st, "bad-op")
       | "pevalv", [id] =>
         -- version mode: the fitness is the data version it was computed on (call-site scenarios)
@@ -115,9 +139,11 @@ def step (st : St) (line : String) : St × String :=
           let sig : Nat → Key := fun i => st.pool.getD (st.sigIdx.getD i 0) Key.zero
           let ev : Nat → Nat → Fit := fun d _ => [UInt64.ofNat (d + 1)]
           let r := proxyEval sig ev st.ps id
-          match r.1 with
-          | [w] => ({ st with ps := r.2 }, "v " ++ toString (w.toNat - 1))
-          | _ => ({ st with ps := r.2 }, "v none")
+          let gr := st.gp.bind fun gp => gproxyEval sig ev gp id
+          let showV (f : Fit) : String := match f with
+            | [w] => "v " ++ toString (w.toNat - 1)
+            | _ => "v none"
+          ({ st with ps := r.2, gp := gr.map (·.2) }, withGen (showV r.1) (gr.map fun x => showV x.1))
         else (st, "bad-op")
       | "cs", [site, arg, gap, k] =>
         -- a validation-strategy step as modelled in `Site`; k = the data version observed afterwards
@@ -132,13 +158,17 @@ def step (st : St) (line : String) : St × String :=
           else
             let sig : Nat → Key := fun i => st.pool.getD (st.sigIdx.getD i 0) Key.zero
             let ev : Nat → Nat → Fit := fun d _ => [UInt64.ofNat (d + 1)]
-            let ps' := ((CEv.site s k : CEv Nat Nat).expand).foldl (fun p e => (pstep sig ev p e).2) st.ps
-            ({ st with ps := ps' }, "ok")
-      | "pdata", [d] => ({ st with ps := { st.ps with data := d } }, "ok")
-      | "pclr", [] => ({ st with ps := { st.ps with cache := st.ps.cache.clear } }, "ok")
+            let evs := (CEv.site s k : CEv Nat Nat).expand
+            let ps' := evs.foldl (fun p e => (pstep sig ev p e).2) st.ps
+            let gp' := evs.foldl (fun p e => p.bind fun p => (gpstep sig ev p e).map (·.2)) st.gp
+            ({ st with ps := ps', gp := gp' }, "ok")
+      | "pdata", [d] => ({ st with ps := { st.ps with data := d }, gp := st.gp.map fun p => { p with data := d } }, "ok")
+      | "pclr", [] =>
+        ({ st with ps := { st.ps with cache := st.ps.cache.clear }, gp := st.gp.bind gproxyClear }, "ok")
       | "preload", [] =>
         let r := (Cache.init st.ps.cache.idx st.ps.cache.dom).load st.ps.cache.save
-        ({ st with ps := { st.ps with cache := r.2 } }, if r.1 then "reload 1" else "reload 0")
+        ({ st with ps := { st.ps with cache := r.2 }, gp := st.gp.map fun p => { p with cache := greload p.cache } },
+         if r.1 then "reload 1" else "reload 0")
       | _, _ => (st, "bad-op")
 
 partial def loop (h : IO.FS.Stream) (out : IO.FS.Stream) (st : St) : IO Unit := do
